@@ -175,12 +175,27 @@ func pxNew(strategy, ids, base string) string {
 		cfg.Plugins.Chain = append(cfg.Plugins.Chain, config.PluginConfig{Name: "size_limit", Config: map[string]interface{}{
 			"max_request_body": 1 << 30, "max_response_body": 1 << 30}})
 	}
+	if strings.Contains(pxFeatures, "S") {
+		// the size_limit plugin with a response limit of 1000 bytes (C14 front-end episodes)
+		cfg.Plugins.Enabled = true
+		cfg.Plugins.Chain = append(cfg.Plugins.Chain, config.PluginConfig{Name: "size_limit", Config: map[string]interface{}{
+			"max_request_body": 1 << 30, "max_response_body": 1000}})
+	}
 	if strings.Contains(pxFeatures, "g") {
 		// the gzip plugin where buildHandler puts it (C15 front-end episodes): the client of this
 		// harness then reports the *decoded* payload of a gzip-encoded answer
 		cfg.Plugins.Enabled = true
 		cfg.Plugins.Chain = append(cfg.Plugins.Chain, config.PluginConfig{Name: "gzip", Config: map[string]interface{}{
 			"level": 6, "min_size": 1, "content_types": []interface{}{"text/", "application/json"}}})
+	}
+	if strings.Contains(pxFeatures, "L") {
+		// the logging plugin listed last: inside every plugin listed before it
+		cfg.Plugins.Enabled = true
+		cfg.Plugins.Chain = append(cfg.Plugins.Chain, config.PluginConfig{Name: "logging"})
+	}
+	if strings.Contains(pxFeatures, "H") {
+		cfg.Plugins.Enabled = true
+		cfg.Plugins.Chain = append(cfg.Plugins.Chain, config.PluginConfig{Name: "headers", Config: map[string]interface{}{"set": map[string]interface{}{"X-V-Via": "helios"}}})
 	}
 	lb, err := loadbalancer.NewLoadBalancer(cfg)
 	if err != nil {
